@@ -27,7 +27,7 @@ Extraction "model.ml"
   wbf_encode_diff_v1 wbf_encode_update_v1 wbf_hypotheses wbf_txn_hypotheses
   snp_encode_state_from_snapshot_v1 snp_snapshot_sorted snp_hypotheses snp_extends_b snp_no_holes
   stk_check_all stk_get_offset stk_wf
-  gcb_run gcb_cells_view gcb_total_ok gcb_clients_ok gcb_branches_view
+  gcb_run gcb_gc_api gcb_cells_view gcb_total_ok gcb_clients_ok gcb_branches_view
   xw_build xw_observe xw_wfb xw_find xw_check_spec
   rt_apply_auto rt_render rt_spec_apply rt_op_ok rt_items_eqb_gc rt_wf relems_eqb
   itg_empty itg_drive_res itg_obs_ranges itg_obs_holes itg_obs_has_pending itg_obs_missing itg_update_wf itg_blocks_wf
